@@ -54,7 +54,9 @@ def cut(data: bytes, cuts):
 
 
 def run_http1(case, opts_kw=None, hook_extra=None, before_close=None) -> Outcome:
-    opts = make_options(**(opts_kw or {}))
+    kw = dict(case.get("opts") or {})
+    kw.update(opts_kw or {})
+    opts = make_options(**kw)
     mode = case.get("mode", "regular")
     ctx = make_context(opts, mode="regular" if mode == "regular" else "transparent")
     if mode == "transparent":
@@ -169,6 +171,7 @@ def run_http1(case, opts_kw=None, hook_extra=None, before_close=None) -> Outcome
 
     pending = []  # [conn, response index, client pieces still to wait]
     delays = seg.get("delay") or []
+    early = case.get("early") or []
 
     def deliver(conn, i):
         rd = resp_descs[i]
@@ -197,6 +200,9 @@ def run_http1(case, opts_kw=None, hook_extra=None, before_close=None) -> Outcome
                     state["fwd_error"] = res.error
                     continue
                 n = len(res.msgs)
+                if res.incomplete and res.partial is not None and state["next_resp"] < len(early) and early[state["next_resp"]] \
+                        and answered.get(conn, 0) == n:
+                    n += 1  # early response: the server answers as soon as it has the request head (streamed uploads)
                 while answered.get(conn, 0) < n and state["next_resp"] < len(resp_descs):
                     i = state["next_resp"]
                     state["next_resp"] += 1
